@@ -30,7 +30,26 @@ type gen struct {
 	delivered []map[int]bool // per validator index: log positions already delivered
 	started   []bool
 	correctL  []int
+	nodrain   int // per mille: a node op is issued with drain=0 (own messages stay queued, heard via `own` ops)
 }
+
+// sfx: the drain flag of the next node op
+func (g *gen) sfx() string {
+	if g.nodrain > 0 && g.r.Intn(1000) < g.nodrain {
+		return " drain=0"
+	}
+	return ""
+}
+
+func (g *gen) qlen(i int) int {
+	if nd := g.nt.nodes[i]; nd != nil {
+		return nd.node.InternalQueueLen()
+	}
+	return 0
+}
+
+// own: node i hears the k-th of its own queued messages
+func (g *gen) own(i, k int) string { return g.do(fmt.Sprintf("own node=%d idx=%d", i, k)) }
 
 func newGen(r *rand.Rand, w *world, faulty []int, hrs, wait, interval bool) *gen {
 	sort.Ints(faulty)
@@ -75,7 +94,7 @@ func (g *gen) round(i int) int              { return int(g.rs(i).Round) }
 
 func (g *gen) start(i int) {
 	g.started[i] = true
-	g.do(fmt.Sprintf("timeout node=%d r=0 s=newHeight", i))
+	g.do(fmt.Sprintf("timeout node=%d r=0 s=newHeight", i) + g.sfx())
 }
 
 func (g *gen) peerFor(sender int) int {
@@ -91,13 +110,13 @@ func (g *gen) deliver(i, k int) string {
 		g.delivered[i][k] = true
 		peer = g.peerFor(g.nt.log[k].sender)
 	}
-	return g.do(fmt.Sprintf("deliver node=%d msg=%d peer=%d", i, k, peer))
+	return g.do(fmt.Sprintf("deliver node=%d msg=%d peer=%d", i, k, peer) + g.sfx())
 }
 
-func (g *gen) block(i, b int) string { return g.do(fmt.Sprintf("block node=%d b=%d", i, b)) }
+func (g *gen) block(i, b int) string { return g.do(fmt.Sprintf("block node=%d b=%d", i, b) + g.sfx()) }
 
 func (g *gen) fire(i, r int, st cstypes.RoundStepType) string {
-	return g.do(fmt.Sprintf("timeout node=%d r=%d s=%s", i, r, stepNames[st]))
+	return g.do(fmt.Sprintf("timeout node=%d r=%d s=%s", i, r, stepNames[st]) + g.sfx())
 }
 
 // byz ops return the log position of the appended message (-1 if refused)
@@ -173,7 +192,7 @@ type policy struct {
 }
 
 type cand struct {
-	kind int // 0 start, 1 deliver, 2 block
+	kind int // 0 start, 1 deliver, 2 block, 3 own
 	i, x int
 }
 
@@ -210,6 +229,14 @@ func (g *gen) drive(p policy, cond func() bool, maxOps int) {
 			}
 			if b := g.wantBlock(i); b >= 0 && (p.allowBlock == nil || p.allowBlock(i, b)) {
 				cs = append(cs, cand{2, i, b})
+			}
+			if q := g.qlen(i); q > 0 {
+				// own messages waiting: usually the oldest, sometimes any (overtaking), rarely a missing index
+				k := 0
+				if g.r.Intn(3) == 0 {
+					k = g.r.Intn(q + 1)
+				}
+				cs = append(cs, cand{3, i, k}, cand{3, i, k})
 			}
 		}
 		if len(liveNodes) == 0 {
@@ -249,6 +276,8 @@ func (g *gen) drive(p policy, cond func() bool, maxOps int) {
 			g.deliver(c.i, c.x)
 		case 2:
 			g.block(c.i, c.x)
+		case 3:
+			g.own(c.i, c.x)
 		}
 	}
 }
@@ -292,23 +321,27 @@ func pickFaulty(r *rand.Rand, w *world) []int {
 
 // ---- kind happy ----
 
-func genHappy(r *rand.Rand) core.Case {
+func genHappy(r *rand.Rand) core.Case { return genHappyQ(r, 0, "happy") }
+
+// genHappyQ: nodrain per mille of the node ops leave the node's own messages queued
+func genHappyQ(r *rand.Rand, nodrain int, kind string) core.Case {
 	w := pickWorld(r)
 	var faulty []int
 	if r.Intn(2) == 0 {
 		faulty = pickFaulty(r, w) // silent
 	}
 	g := newGen(r, w, faulty, r.Intn(3) != 0, r.Intn(10) == 0, false)
+	g.nodrain = nodrain
 	chaos := []int{0, 0, 10, 30, 80}[r.Intn(5)]
 	g.drive(policy{nodes: g.correctL, chaos: chaos, dup: 20, anyProposal: r.Intn(4) == 0}, func() bool { return g.allDone(g.correctL) }, 260+60*g.n)
 	if g.allDone(g.correctL) {
-		gstat("happy.all-correct-nodes-decided")
+		gstat(kind + ".all-correct-nodes-decided")
 	}
 	// a few ops against the stopped machines
 	for k := 0; k < 2 && len(g.nt.log) > 0; k++ {
 		g.deliver(g.correctL[r.Intn(len(g.correctL))], r.Intn(len(g.nt.log)))
 	}
-	return g.finish("happy")
+	return g.finish(kind)
 }
 
 // ---- kind sched: a seeded random scheduler with byzantine actions ----
@@ -397,6 +430,18 @@ func (s *sched) visible(i, k int) bool {
 func (s *sched) move() {
 	r := s.r
 	n := s.n
+	if s.nodrain > 0 && r.Intn(3) != 0 {
+		for _, i := range s.correctL {
+			if q := s.qlen(i); q > 0 && s.live(i) && r.Intn(2) == 0 {
+				k := 0
+				if r.Intn(3) == 0 {
+					k = r.Intn(q + 1)
+				}
+				s.own(i, k)
+				return
+			}
+		}
+	}
 	x := r.Intn(1000)
 	switch {
 	case x < 40: // start a node
@@ -642,15 +687,21 @@ func pickHeavyFaulty(r *rand.Rand) (*world, []int) {
 	}
 }
 
-func genSched(r *rand.Rand, thorough, heavy bool) core.Case {
+func genSched(r *rand.Rand, thorough, heavy bool) core.Case { return genSchedQ(r, thorough, heavy, 0) }
+
+func genSchedQ(r *rand.Rand, thorough, heavy bool, nodrain int) core.Case {
 	w := pickWorld(r)
 	faulty := pickFaulty(r, w)
 	if heavy {
 		w, faulty = pickHeavyFaulty(r)
 	}
 	g := newGen(r, w, faulty, r.Intn(3) != 0, r.Intn(8) == 0, r.Intn(12) == 0)
+	g.nodrain = nodrain
 	s := &sched{gen: g, group: make([]int, g.n), side: map[int]int{}}
 	target := 40 + r.Intn(111)
+	if nodrain > 0 {
+		target = target * 3 / 2
+	}
 	if r.Intn(3) == 0 {
 		target = target * g.n / 4
 	}
@@ -683,6 +734,9 @@ func genSched(r *rand.Rand, thorough, heavy bool) core.Case {
 	}
 	if heavy {
 		return g.finish("unsafe")
+	}
+	if nodrain > 0 {
+		return g.finish("own-delay")
 	}
 	return g.finish("sched")
 }
@@ -1053,15 +1107,20 @@ func genKind(r *rand.Rand, kind string) core.Case {
 		return genLockedPol(r)
 	case "claim-replay":
 		return genClaimReplay(r)
+	case "own-delay":
+		if r.Intn(2) == 0 {
+			return genHappyQ(r, []int{300, 700, 1000}[r.Intn(3)], "own-delay")
+		}
+		return genSchedQ(r, false, false, []int{300, 700, 1000}[r.Intn(3)])
 	default:
 		return genSched(r, kind == "sched-long", false)
 	}
 }
 
 func genAll(r *rand.Rand, tier string, emit func(core.Case)) {
-	nSched, nHappy, nLock, nUnsafe, nLate := 1400, 600, 350, 150, 200
+	nSched, nHappy, nLock, nUnsafe, nLate := 1100, 450, 300, 120, 160
 	if tier == "thorough" {
-		nSched, nHappy, nLock, nUnsafe, nLate = 14000, 6000, 3500, 1500, 2000
+		nSched, nHappy, nLock, nUnsafe, nLate = 11000, 4500, 3000, 1200, 1600
 	}
 	for i := 0; i < nSched; i++ {
 		emit(genSched(r, tier == "thorough", false))
@@ -1086,5 +1145,9 @@ func genAll(r *rand.Rand, tier string, emit func(core.Case)) {
 	}
 	for i := 0; i < nLate/2; i++ {
 		emit(genClaimReplay(r))
+	}
+	// own messages heard late / out of order (drain=0 + own ops)
+	for i := 0; i < nLate; i++ {
+		emit(genKind(r, "own-delay"))
 	}
 }
